@@ -551,8 +551,12 @@ func (c *Ctx) c12Limits() {
 		name := FuncName(rg)
 		for _, pc := range c.userCalls(rg, "PutRecoveryCodes") {
 			os := c.rawOrigins(Arg(pc, 0))
-			okH := HasOrigin(os, func(o Origin) bool { return o.Kind == "call" && strings.HasPrefix(o.Name, "ab/otp/twofactor.BCryptRecoveryCodes#0") })
-			noPlain := !HasOrigin(os, func(o Origin) bool { return o.Kind == "call" && strings.HasPrefix(o.Name, "ab/otp/twofactor.GenerateRecoveryCodes#") })
+			okH := HasOrigin(os, func(o Origin) bool {
+				return o.Kind == "call" && strings.HasPrefix(o.Name, "ab/otp/twofactor.BCryptRecoveryCodes#0")
+			})
+			noPlain := !HasOrigin(os, func(o Origin) bool {
+				return o.Kind == "call" && strings.HasPrefix(o.Name, "ab/otp/twofactor.GenerateRecoveryCodes#")
+			})
 			r.Check(okH && noPlain, "C12.regen", name, "PutRecoveryCodes(Encode(bcrypt(codes)))", posf(c, pc), "stores hashes of the fresh codes", "regenerated codes are not stored as BCryptRecoveryCodes output")
 		}
 		c.mustSaveAfterPut("C12.save", rg, nil)
